@@ -130,6 +130,9 @@ def make_arg(name, kind):
         k = kind[4:]
         ks = {'int': I, 'name': M.Name}[k]
         return SetV(z3.Array(name + '_has', ks, B), k)
+    if kind.startswith('heap:'):
+        # a node table that is not a manager (the `succ` dict of a pickle): modelled as the `_succ` field of a state
+        return FieldV(kind[5:], '_succ')
     if kind == 'opaque':
         return ObjV('opaque')
     if kind == 'none':
@@ -247,6 +250,8 @@ def generate(target, registry):
             if v.key not in mgrs:
                 mgrs[v.key] = State(v.key)
     for v in list(env.values()):
+        if isinstance(v, FieldV) and v.mkey not in mgrs:
+            mgrs[v.mkey] = State(v.mkey)
         if isinstance(v, ObjV):
             for av in v.attrs.values():
                 if isinstance(av, MgrV) and av.key not in mgrs:
